@@ -235,7 +235,8 @@ impl<TX> RecvController<TX> {
         Self {
             rcvd_data: 0,
             max_data: initial_max_data,
-            step: initial_max_data / 2,
+            // never zero: a window of 1 byte must still slide, or the connection stalls forever
+            step: (initial_max_data / 2).max(1),
             broker,
         }
     }
